@@ -218,10 +218,34 @@ func ruleC20Load(cx *Ctx) {
 						})
 						return ok
 					}
-					if depth > 2 || addressTaken(cx, f) {
+					if depth > 2 {
 						return false
 					}
 					sites, all := 0, true
+					// handed to wrapLoad as a method value (c.wrapLoad(job.load)): the same as a closure handed to it
+					for _, g := range cx.P.ModuleFuncs() {
+						allInstrs(g, func(x ssa.Instruction) {
+							mc, isMC := x.(*ssa.MakeClosure)
+							if !isMC {
+								return
+							}
+							if bm := boundMethod(mc); bm == nil || origin(bm) != origin(f) {
+								return
+							}
+							sites++
+							for _, u := range usesOf(mc) {
+								if _, dbg := u.(*ssa.DebugRef); dbg {
+									continue
+								}
+								if !isCallTo(u, wl) {
+									all = false
+								}
+							}
+						})
+					}
+					if sites == 0 && addressTaken(cx, f) {
+						return false
+					}
 					for _, g := range cx.P.ModuleFuncs() {
 						allInstrs(g, func(x ssa.Instruction) {
 							if isCallTo(x, f) {
